@@ -48,6 +48,7 @@ type c19Env struct {
 	noHome                        bool   // start the server without HOME / XDG_CONFIG_HOME in its environment
 	iniPad                        int    // > 0: configuration files carry this many bytes of comment lines before and inside [server]
 	fifo                          bool   // --config / PS3NETSRV_CONFIG_FILE name a FIFO that a writer feeds (as with --config <(...))
+	symlink                       bool   // every configuration file is a symbolic link to the real file kept elsewhere (dotfile managers, /etc alternatives)
 }
 
 func newC19Env(base string) *c19Env {
@@ -139,8 +140,10 @@ func (e *c19Env) start(assigns []c19Assign, wait time.Duration) (*BinSrv, error)
 			env = append(env, "PS3NETSRV_CONFIG_FILE="+p)
 		case "cwdini":
 			must(os.WriteFile(filepath.Join(e.cwd, "config.ini"), []byte(content), 0o644))
+			e.linkify(filepath.Join(e.cwd, "config.ini"))
 		case "userini":
 			must(os.WriteFile(filepath.Join(e.home, "xdg", "ps3netsrv-go", "config.ini"), []byte(content), 0o644))
+			e.linkify(filepath.Join(e.home, "xdg", "ps3netsrv-go", "config.ini"))
 		}
 	}
 	args = append(pre, args...)
@@ -155,12 +158,31 @@ func (e *c19Env) start(assigns []c19Assign, wait time.Duration) (*BinSrv, error)
 	return b, err
 }
 
+// linkify moves a configuration file elsewhere and leaves a symbolic link (relative for every other file) in its place.
+func (e *c19Env) linkify(p string) {
+	if !e.symlink {
+		return
+	}
+	store := filepath.Join(e.base, "dotfiles")
+	must(os.MkdirAll(store, 0o755))
+	real := filepath.Join(store, sprintf("%x.ini", h64(p)))
+	must(os.Rename(p, real))
+	target := real
+	if h64(p)%2 == 0 {
+		if rel, err := filepath.Rel(filepath.Dir(p), real); err == nil {
+			target = rel
+		}
+	}
+	must(os.Symlink(target, p))
+}
+
 // writeConfig stores a configuration file; with e.fifo it is a FIFO fed by a writer goroutine (what a shell's
 // process substitution gives the server). Returns the FIFO paths created.
 func (e *c19Env) writeConfig(p, content string) []string {
 	os.Remove(p)
 	if !e.fifo {
 		must(os.WriteFile(p, []byte(content), 0o644))
+		e.linkify(p)
 		return nil
 	}
 	must(syscall.Mkfifo(p, 0o644))
@@ -331,13 +353,14 @@ func (e *c19Env) observe(b *BinSrv, setting string, expect string) (got string, 
 func TestC19(t *testing.T) {
 	r := NewReporter(t)
 	defer r.Done()
-	r.Rule("9 settings x 6 channels (flag, environment variable, --config file, PS3NETSRV_CONFIG_FILE file, ./config.ini, user config dir) alone; command-line flag vs every other channel with a conflicting value; malformed values of whitelist / max-clients / root / read-timeout on every channel; 29 alternative spellings of numbers, durations and booleans (leading zeros, radix prefixes, digit separators, unit-less durations, on/yes/t) x 5 channels with the flag as reference: same effect or same refusal everywhere; configuration files with 3000 / 5000 / 70000 bytes of comment lines around the keys; --config naming a FIFO; every case is one start of the real binary whose behaviour is observed from outside; oracle: flag wins, otherwise the single channel has its effect; malformed -> non-zero exit and never listening; distinct by (setting, channel assignment)")
+	r.Rule("9 settings x 6 channels (flag, environment variable, --config file, PS3NETSRV_CONFIG_FILE file, ./config.ini, user config dir) alone; command-line flag vs every other channel with a conflicting value; malformed values of whitelist / max-clients / root / read-timeout on every channel; 29 alternative spellings of numbers, durations and booleans (leading zeros, radix prefixes, digit separators, unit-less durations, on/yes/t) x 5 channels with the flag as reference: same effect or same refusal everywhere; configuration files with 3000 / 5000 / 70000 bytes of comment lines around the keys; --config naming a FIFO; every configuration file location holding a symbolic link to the real file; every case is one start of the real binary whose behaviour is observed from outside; oracle: flag wins, otherwise the single channel has its effect; malformed -> non-zero exit and never listening; distinct by (setting, channel assignment)")
 	base := filepath.Join(scratchBase(), sprintf("verifh-c19-%d", os.Getpid()))
 	defer os.RemoveAll(base)
 	type tc struct {
 		noHome  bool
 		iniPad  int
 		fifo    bool
+		symlink bool
 		name    string
 		assigns []c19Assign
 		setting string
@@ -379,6 +402,14 @@ func TestC19(t *testing.T) {
 				cases = append(cases, tc{iniPad: pad, name: sprintf("%s malformed via %s in a file with %d bytes of comments", bad[0], ch, pad), setting: bad[0], bad: true, assigns: []c19Assign{{ch, bad[0], bad[1]}}})
 			}
 		}
+	}
+	// configuration files that are symbolic links to the real file (dotfile managers): same effect, same refusal
+	for _, ch := range []string{"configflag", "configenv", "cwdini", "userini"} {
+		cases = append(cases, tc{symlink: true, name: "json-log via " + ch + " (symbolic link)", setting: "json-log", expect: "A", assigns: []c19Assign{{ch, "json-log", "A"}}})
+		cases = append(cases, tc{symlink: true, name: "client-whitelist via " + ch + " (symbolic link)", setting: "client-whitelist", expect: "A", assigns: []c19Assign{{ch, "client-whitelist", "A"}}})
+		cases = append(cases, tc{symlink: true, name: "root via " + ch + " (symbolic link)", setting: "root", expect: "A", assigns: []c19Assign{{ch, "root", "A"}}})
+		cases = append(cases, tc{symlink: true, name: "client-whitelist malformed via " + ch + " (symbolic link)", setting: "client-whitelist", bad: true, assigns: []c19Assign{{ch, "client-whitelist", "not-an-address"}}})
+		cases = append(cases, tc{symlink: true, name: "allow-write: flag vs " + ch + " (symbolic link)", setting: "allow-write", expect: "A", assigns: []c19Assign{{"flag", "allow-write", "A"}, {ch, "allow-write", "B"}}})
 	}
 	// the configuration file is a stream (FIFO, as with --config <(...)): no size, not seekable, read once
 	// (only --config: the default locations and PS3NETSRV_CONFIG_FILE go through kong.Configuration, which opens every
@@ -429,6 +460,7 @@ func TestC19(t *testing.T) {
 		e.noHome = c.noHome
 		e.iniPad = c.iniPad
 		e.fifo = c.fifo
+		e.symlink = c.symlink
 		a, _ := e.values(c.setting)
 		var assigns []c19Assign
 		for _, x := range c.assigns {
